@@ -43,12 +43,13 @@ struct CbAwt : cocls::awaiter {
 };
 
 void family_future() {
-    int nw = 1 + dsim::choose(3);             // up to three waiters: the suspend point carries them inline
-    int wk[3]; bool heap[3]; for (int i = 0; i < nw; i++) { wk[i] = dsim::choose(5); heap[i] = dsim::flip(); }
+    int nw = 1 + dsim::choose(6);             // any number of waiters, but at most three of them coroutines: those are what the suspend point carries inline
+    int wk[6]; bool heap[6]; int ncoro = 0;
+    for (int i = 0; i < nw; i++) { wk[i] = dsim::choose(5); heap[i] = dsim::flip(); if (wk[i] <= 1 && ++ncoro > 3) wk[i] = 2 + dsim::choose(3); }
     int rk = dsim::choose(3); bool threads = dsim::flip();
     dsim::plan_note("future: waiters=%d", nw); for (int i = 0; i < nw; i++) dsim::plan_note(" %d%s", wk[i], heap[i] ? "h" : "p");
     dsim::plan_note(" resolver=%d threads=%d", rk, (int)threads);
-    alignas(16) static Slot slots[3]; CbAwt cbs[3];
+    alignas(16) static Slot slots[6]; CbAwt cbs[6];
     auto resolve = [rk](cocls::promise<Payload> &p) {
         Region r("resolving a promise");
         if (rk == 0) p(Payload{7, 14, 21}); else if (rk == 1) p(cocls::drop); else { cocls::promise<Payload> q(std::move(p)); }
